@@ -135,6 +135,14 @@ func c11GenProp(t *rapid.T, name string, schemaNames []string, depth int, v int)
 	default:
 		pt := pick(t, c11PrimTypes, "prim")
 		p.Type, p.Format = pt.typ, pt.format
+		if v == 2 && (pt.typ == "integer" || pt.typ == "number") && rapid.IntRange(0, 3).Draw(t, "oddformat") == 0 {
+			// "format" is an open-valued keyword: a legal but non-standard format must not change the kind
+			if pt.typ == "integer" {
+				p.Format = pick(t, []string{"int16", "uint32", "uint64", "int8"}, "oddintformat")
+			} else {
+				p.Format = pick(t, []string{"decimal", "currency", "float32"}, "oddnumformat")
+			}
+		}
 	}
 	p.Array = rapid.IntRange(0, 2).Draw(t, "array") == 0
 	return p
@@ -695,6 +703,10 @@ func c11DocClasses(d c11Doc) (classes []string, nonTrivial bool) {
 			}
 			if p.Format != "" {
 				cl["format_"+p.Format] = true
+				switch p.Format {
+				case "int16", "uint32", "uint64", "int8", "decimal", "currency", "float32":
+					cl["non_standard_numeric_format"] = true
+				}
 			}
 			for _, k := range c11KeywordPropNames {
 				if p.Name == k {
